@@ -169,6 +169,7 @@ func (u *Unit) VerifyFunc() {
 			}
 		}
 	}
+	u.markOutOfStep()
 }
 
 func (u *Unit) precreateSkolems() {
